@@ -1173,7 +1173,9 @@ def children_shape_ranks(rank, n):
             break
         rank -= num_trees_with_part
     else:
-        if n != 1:
+        # The only tree with a single leaf has shape rank 0 (there are no
+        # partitions to consume the rank in that case).
+        if n != 1 or rank != 0:
             raise ValueError("Rank is out of bounds.")
 
     grouped_part = group_partition(part)
